@@ -142,6 +142,7 @@ func init() {
 					cb = func(ms []rueidis.RedisMessage) { calls = append(calls, "opt:"+invArgText(ms)) }
 				}
 				p := rueidis.VerifBarePipe(cb)
+				hookInv := false
 				c.Emit(fmt.Sprintf("reset ver6=0 opt=%s", b01(opt)), "ok", false)
 				for i := 0; i < 12; i++ {
 					switch c.Rng.IntN(8) {
@@ -152,9 +153,11 @@ func init() {
 							h = rueidis.VerifHooksWithInvalidations(h, func(ms []rueidis.RedisMessage) { calls = append(calls, "hook:"+invArgText(ms)) })
 						}
 						p.SetPubSubHooks(h)
+						hookInv = inv
 						c.Emit("hook inv="+b01(inv), "ok", false)
 					case 1:
 						p.SetPubSubHooks(rueidis.PubSubHooks{})
+						hookInv = false
 						c.Emit("clear", "ok", false)
 					default:
 						vs := c.randInvPush()
@@ -170,6 +173,13 @@ func init() {
 						}
 						c.Hit(fmt.Sprintf("push:calls=%d", len(calls)))
 						c.Emit(op, ans, len(calls) > 0)
+						c.Emit("!"+op, ans, false)
+						if valid := len(vs) >= 2 && vs[0].kind == 's' && vs[0].s == "invalidate"; valid && opt && hookInv {
+							c.Hit("push:both-installed")
+							if len(calls) != 2 || strings.TrimPrefix(calls[0], "opt:") != strings.TrimPrefix(calls[1], "hook:") {
+								c.Fail("inval:callback-missed-push:both-installed", op, "OnInvalidations and the SetOnInvalidations hook are both installed but the push reached: "+ans)
+							}
+						}
 					}
 				}
 			}
@@ -324,8 +334,100 @@ func (c *Ctx) lifetimeEpisodes() {
 	}
 }
 
+// bothEpisodes: a dedicated wire of a client with ClientOption.OnInvalidations (pool wires inherit the
+// option) on which SetOnInvalidations is installed, removed and installed again between pushes; both
+// callbacks must see the server's pushes of that connection (the hook while installed), then one nil.
+func (c *Ctx) bothEpisodes() {
+	ctx := context.Background()
+	for ep := 0; ep < 3; ep++ {
+		srv := fakeredis.New(fakeredis.Options{InvalidateAfterReply: ep == 1})
+		mk := func(o rueidis.ClientOption) rueidis.Client {
+			o.InitAddress, o.DialCtxFn, o.ForceSingleClient, o.PipelineMultiplex, o.DisableRetry = []string{"fake:1"}, srv.Dial, true, -1, true
+			cl, err := rueidis.NewClient(o)
+			if err != nil {
+				panic(err)
+			}
+			return cl
+		}
+		var optLog, hookLog invLog
+		w := mk(rueidis.ClientOption{DisableCache: true})          // connection 1: the writer
+		a := mk(rueidis.ClientOption{OnInvalidations: optLog.add}) // connection 2 (unused pipeline)
+		dc, release := a.Dedicate()
+		dc.Do(ctx, dc.B().ClientTracking().On().Build()) // connection 3: plain tracking instead of OPTIN
+		conn := srv.NumConns()
+		var toks []string
+		var want []string
+		mark := 0
+		flushToks := func(installed bool) {
+			outs := srv.ConnOuts(conn)
+			t, _ := frameTokens(outs[mark:])
+			for _, o := range outs[mark:] {
+				if o.IsPush && o.Kind == "invalidate" && installed {
+					if o.Flush {
+						want = append(want, "nil")
+					} else {
+						hs := make([]string, len(o.Args))
+						for i, k := range o.Args {
+							hs[i] = hx0(k)
+						}
+						want = append(want, "["+strings.Join(hs, ",")+"]")
+					}
+				}
+			}
+			toks = append(toks, t...)
+			mark = len(outs)
+		}
+		flushToks(false)
+		dc.SetOnInvalidations(hookLog.add)
+		toks = append(toks, "hook1")
+		dc.Do(ctx, dc.B().Get().Key("b1").Build())
+		dc.Do(ctx, dc.B().Mget().Key("b2", "b3").Build())
+		w.Do(ctx, w.B().Set().Key("b1").Value("1").Build())
+		if ep != 2 {
+			// a flush on this connection only (FLUSHALL would also notify the client's other tracking
+			// connection, whose pushes go to the same client-wide OnInvalidations callback)
+			srv.Inject(conn, fakeredis.Push{"invalidate", nil})
+		}
+		dc.Do(ctx, dc.B().Ping().Build())
+		flushToks(true)
+		dc.SetOnInvalidations(nil) // removed: only the option-level callback sees the next push
+		toks = append(toks, "clear")
+		dc.Do(ctx, dc.B().Get().Key("b4").Build())
+		w.Do(ctx, w.B().Set().Key("b4").Value("1").Build())
+		dc.Do(ctx, dc.B().Ping().Build())
+		flushToks(false)
+		dc.SetOnInvalidations(hookLog.add)
+		toks = append(toks, "hook1")
+		dc.Do(ctx, dc.B().Get().Key("b5").Build())
+		w.Do(ctx, w.B().Del().Key("b5", "b2").Build())
+		srv.Inject(conn, fakeredis.Push{"invalidate", []any{"m1", "m2"}})
+		dc.Do(ctx, dc.B().Ping().Build())
+		flushToks(true)
+		srv.Kill(conn)
+		toks = append(toks, "x")
+		want = append(want, "nil")
+		_, invs := frameTokens(srv.ConnOuts(conn))
+		optLog.waitLen(invs + 1)
+		hookLog.waitLen(len(want))
+		time.Sleep(500 * time.Microsecond)
+		ans := "opt=" + orDash(optLog.snap()) + " hook=" + orDash(hookLog.snap())
+		line := strings.Join(toks, " ")
+		c.Emit("e2eboth "+line, ans, true)
+		c.Emit("!e2eboth "+line, ans, false)
+		if got := strings.Join(hookLog.snap(), " "); got != strings.Join(want, " ") {
+			c.Fail("inval:callback-missed-push:both-installed", "e2eboth "+line, "the dedicated callback saw ["+got+"], the server pushed ["+strings.Join(want, " ")+"] while it was installed (OnInvalidations is configured on the same wire)")
+		}
+		c.Hit("both-installed-e2e")
+		release()
+		a.Close()
+		w.Close()
+		srv.Close()
+	}
+}
+
 func (c *Ctx) invalE2E() {
 	c.lifetimeEpisodes()
+	c.bothEpisodes()
 	ctx := context.Background()
 	for ep := 0; ep < c.N; ep++ {
 		srv := fakeredis.New(fakeredis.Options{InvalidateAfterReply: c.Rng.IntN(2) == 0})
